@@ -922,9 +922,21 @@ def main():
     C.append('end Generated')
     consts_src = '\n'.join(C) + '\n'
 
+    # --- straight-line integer functions (statement-by-statement rendering) -------------------
+    sys.path.insert(0, os.path.dirname(os.path.abspath(__file__)))
+    import translate_fn
+    n_before = len(UNTRANS_TAGGED)
+    funcs_src, funcs_done = translate_fn.translate_all(U, M, untrans)
+    if len(UNTRANS_TAGGED) != n_before:
+        # the list of untranslatable items is part of Consts.lean
+        consts_src = consts_src.replace(
+            consts_src[consts_src.index('def untranslatable'):],
+            'def untranslatable : List (String × String) := %s\n\nend Generated\n'
+            % lean_list(['(%s, %s)' % (lean_str(t), lean_str(u)) for t, u in UNTRANS_TAGGED]))
+
     os.makedirs(OUT, exist_ok=True)
     changed = []
-    for fname, src in (('Tables.lean', tables_src), ('Consts.lean', consts_src)):
+    for fname, src in (('Tables.lean', tables_src), ('Consts.lean', consts_src), ('Funcs.lean', funcs_src)):
         p = os.path.join(OUT, fname)
         old = open(p).read() if os.path.exists(p) else None
         if old != src:
@@ -932,7 +944,7 @@ def main():
                 f.write(src)
             os.replace(p + '.tmp', p)
             changed.append(fname)
-    print(json.dumps({'changed': changed, 'untranslatable': UNTRANSLATABLE, 'explored': PROBED,
+    print(json.dumps({'changed': changed, 'untranslatable': UNTRANSLATABLE, 'explored': PROBED, 'functions': funcs_done,
                       'classes': len(class_defs), 'conv_tables': {k: len(v) for k, v in CONV_TABLES.items()}}))
 
 
